@@ -114,6 +114,7 @@ func modelTest() modelTestResult {
 	}{{20, "unsynchronised counter (data race)", "race"}, {21, "recursive RLock with queued writer (deadlock)", "plain"}, {22, "torn update in two critical sections (wrong result)", "plain"},
 		{23, "lock-order inversion (deadlock)", "plain"}, {24, "coalescing with a capacity-1 channel, 3 waiters (wrong result)", "plain"}, {25, "first error found by concurrent workers (schedule-dependent result)", "plain"},
 		{26, "select on found/done when both are ready (random pick: wrong result)", "plain"},
+		{28, "sync.Cond waited on with if instead of for (wrong result after Broadcast)", "plain"},
 		{27, "TTL cache whose ticker-driven janitor evicts in two steps (wrong result; needs simulated time to pass)", "plain"}}
 	for _, d := range defects {
 		found := ""
